@@ -181,6 +181,8 @@ def _gen_common(rng, tier, routes, **treekw):
         "prelude": gen_prelude(rng), "remake": rng.randrange(1, 1 << 30) if rng.random() < 0.2 else None,
         "swallowed": rng.choice([None, None, None, "announce", "url_list", "httpseeds"]),
         "spell": rng.choice([None, None, None, "trailing-slash", "trailing-slash", "dot-segment", "relative", "double-sep"]),
+        # library routes only: the creator object is used a second time (assemble() again before writing / write() twice)
+        "reuse": rng.choice([None] * 8 + ["assemble-again", "write-again"]),
     }
 
 
@@ -216,7 +218,7 @@ class C01:
                                                   "TorrentFile.assemble", "utils._filelist_total"])
         counters = {}
         oc = drive.create(case["route"], spelled(case, root), os.path.join(out, "m.torrent"), piece_length=case["pl"],
-                          progress=case["progress"], swallowed=case.get("swallowed"))
+                          progress=case["progress"], swallowed=case.get("swallowed"), reuse=case.get("reuse"))
         if case.get("swallowed"):
             counters["cases_path_given_via_list_option"] = 1
         viol = []
@@ -298,7 +300,7 @@ class C02:
         root, out, reach = _setup(case, scratch, names)
         counters = {}
         oc = drive.create(r, spelled(case, root), os.path.join(out, "m.torrent"), piece_length=case["pl"],
-                          progress=case["progress"])
+                          progress=case["progress"], reuse=case.get("reuse"))
         viol = []
         pl = 2 ** case["pl_exp"]
         if not oc.ok:
@@ -353,7 +355,7 @@ class C03:
         root, out, reach = _setup(case, scratch, names)
         counters = {}
         oc = drive.create(r, spelled(case, root), os.path.join(out, "m.torrent"), piece_length=case["pl"],
-                          progress=case["progress"], align=bool(case.get("align_option")))
+                          progress=case["progress"], align=bool(case.get("align_option")), reuse=case.get("reuse"))
         if case.get("align_option"):
             counters["created_with_align_option"] = 1
         viol = []
@@ -406,7 +408,7 @@ class C15:
         root, out, reach = _setup(case, scratch, ["TorrentFile.assemble", "Hasher._handle_partial", "Hasher.__next__"])
         counters = {}
         oc = drive.create(case["route"], spelled(case, root), os.path.join(out, "m.torrent"), piece_length=case["pl"],
-                          progress=case["progress"], align=True, swallowed=case.get("swallowed"))
+                          progress=case["progress"], align=True, swallowed=case.get("swallowed"), reuse=case.get("reuse"))
         if case.get("swallowed"):
             counters["cases_path_given_via_list_option"] = 1
         viol = []
@@ -517,11 +519,23 @@ class C10:
                 hk = {} if pad else {"pad": False}
                 hh = hasher.HasherHybrid(path, pl, **kw(), **hk)
                 res["HasherHybrid"] = (hh.root, hh.piece_layer, list(hh.pieces), hh.padding_file)
+                def drain(h):
+                    # the iterator may be consumed in one go, after a first next(), or in slices - same items either way
+                    how = case["cseed"] % 3
+                    if how == 1:
+                        first = next(h, None)
+                        return ([] if first is None else [first]) + list(h)
+                    if how == 2:
+                        import itertools
+                        it = iter(h)
+                        head = list(itertools.islice(it, 2))        # a slice first ...
+                        return head + (list(it) if len(head) == 2 else [])      # ... then the rest (never asked again once exhausted)
+                    return list(h)
                 f0 = hasher.FileHasher(path, pl, hybrid=False, **kw())
-                items0 = list(f0)
+                items0 = drain(f0)
                 res["FileHasher"] = (f0.root, f0.piece_layer, None, None)
                 f1 = hasher.FileHasher(path, pl, hybrid=True, **kw(), **hk)
-                items1 = list(f1)
+                items1 = drain(f1)
                 res["FileHasher(hybrid)"] = (f1.root, f1.piece_layer, list(f1.pieces), f1.padding_file)
                 if b"".join(bytes(x) for x in items0) != bytes(f0.piece_layer or b""):
                     viol.append(oracles.V("filehasher-yield-vs-layer"))
